@@ -1029,7 +1029,10 @@ class Scene(Geometry3D):
         hull : trimesh.Trimesh
           Trimesh object which is a convex hull of all meshes in scene
         """
-        points = util.vstack_empty([m.vertices for m in self.dump()])  # type: ignore
+        # planar paths which stay in their plane are dumped with (n, 2) vertices
+        points = util.vstack_empty(
+            [util.stack_3D(m.vertices) for m in self.dump()]  # type: ignore
+        )
         return convex.convex_hull(points)
 
     def export(self, file_obj=None, file_type=None, **kwargs):
